@@ -47,6 +47,15 @@ def run(model, res, tier):
     H.safely(res, 'R4', 'row converters', _r4, model, res, m)
     H.safely(res, 'R5', 'recomposition', _r5, model, res, m)
     H.safely(res, 'R6', 'loop', _r6, model, res, m)
+    # where the package itself decomposes and recomposes labels - the corners of a range - every corner keeps its own parts and markers
+    res.rule('R8', 'the corners of a range are recomposed from their own decomposed parts: each cell of the range event carries the marker written '
+             'on that corner (shared with C10.R4)')
+
+    def corners(tmp):
+        from . import c10
+        cbs = c10.callbacks(c)
+        c10._r4({'model': model, 'c': c, 'res': tmp, 'cbs': cbs})
+    H.borrow(res, 'R8', 'range corners', corners)
     keys = [(m.name, q) for q in m.functions if '.' not in q]
     region = c.cg.reachable(keys)
     purity.check_region(res, c, 'R7', None, region, 'a label helper')
@@ -145,6 +154,21 @@ def _r1(model, res, m):
                       func='extract_label')
 
 
+def _marker_is(v, want, notes=()):
+    """Is the marker value ``v`` that of regex group ``want``?  Either an expression of that group (== '$' / took part), or - on a trace that
+    has already decided whether the optional group took part - the constant that decision implies."""
+    if _marker_group(v) == want:
+        return True
+    if isinstance(v, Const) and isinstance(v.value, bool):
+        for (t, alt, s_) in notes:
+            if isinstance(s_, Atom) and s_.op in ('took-part', 'absent') and isinstance(s_.args[0], Atom) and s_.args[0].op == 'group' \
+                    and s_.args[0].args[1].value == want and isinstance(alt, bool):
+                took = alt if s_.op == 'took-part' else (not alt)
+                if took is False and v.value is False:
+                    return True
+    return False
+
+
 def _marker_group(v):
     if isinstance(v, Atom) and v.op == 'took-part' and isinstance(v.args[0], Atom) and v.args[0].op == 'group':
         return v.args[0].args[1].value      # R1 has established that the marker groups can only hold '$'
@@ -172,6 +196,16 @@ def _r2(model, res, c, m):
         for (t, alt, s) in o.notes:
             if ' match ' in t or ' fullmatch ' in t or ' search ' in t:
                 matched = bool(alt)
+                # what the regex judges is the text handed in - not a case-mapped or trimmed copy of it: upper() turns the long s
+                # of "\u017f1" into S, strip() turns " A1" into A1, and then a string that is no label decomposes like one
+                subject = t.rsplit(' ', 1)[-1]
+                oks = subject == 'LAB:str'
+                res.ob('R2', site, 'the label regex is applied to the text itself', oks, subject)
+                if not oks:
+                    res.violation('R2', site + ':judges-a-copy', m.where(f),
+                                  'the label regex is applied to %s instead of the text handed in: a transformed copy can be a label where '
+                                  'the text is not (upper() maps "\u017f1" to "S1", "\u01311" to "I1"), so strings that are not cell labels '
+                                  'no longer decompose to nothing' % subject.replace('LAB:str', 'label'), func='extract_label')
         n += 1
         if matched is False:
             ok = o.kind == 'return' and isinstance(o.value, ListV) and not o.value.items
@@ -192,7 +226,7 @@ def _r2(model, res, c, m):
 
             def idx_of(v, fn, g):
                 return isinstance(v, Atom) and v.op == fn and len(v.args) == 1 and grp(v.args[0]) == g
-            ok = grp(rl) == 4 and grp(cl) == 2 and _marker_group(ra) == 3 and _marker_group(ca) == 1 and \
+            ok = grp(rl) == 4 and grp(cl) == 2 and _marker_is(ra, 3, o.notes) and _marker_is(ca, 1, o.notes) and \
                 idx_of(ri, 'row_label_to_index', 4) and idx_of(ci, 'column_label_to_index', 2)
             why = 'row(label=%r index=%r abs=%r) col(label=%r index=%r abs=%r)' % (rl, ri, ra, cl, ci, ca)
         res.ob('R2', site, 'label decomposes to (row from digits, column from letters, own markers)', ok, why)
